@@ -1,6 +1,6 @@
 SPECIFICATION Spec
 CONSTANTS Family = "algebra"
-          MaxEdits = 3
+          MaxEdits = 2
           UnivKinds = {"complete"}
           WithGt = FALSE
 INVARIANT AlgebraHolds
